@@ -47,7 +47,14 @@ DocsSpell == IF Spellings \in {"all", "all64"} THEN {Obj(<<KV(ka, N1), KV(kE, Oa
 \* "rec": sibling subtrees of the same shape, two levels of them: a nested `..` walks many similar subtrees in one retrieval
 RecTree(k) == Obj(<<KV(kc, Oa(Ob(Num(1000 * k)))), KV(kd, Oa(Ob(Num(1000 * (k + 1))))), KV(ke, Oa(Oab(N1, Num(1000 * (k + 2)))))>>)
 RecDocs == { Obj(<<KV(kc, RecTree(0)), KV(kd, RecTree(3))>>), Arr(<<RecTree(0), RecTree(3), RecTree(6)>>) }
-Docs == IF DocSet = "rec" THEN RecDocs ELSE IF DocSet = "tiny" THEN Deep ELSE (IF Scope \in {"pairs", "extras"} THEN DocsPairs ELSE DocsTriples) \cup DocsSpell
+\* "errs": which error is reported when every branch fails -- members failing at different depths and in different
+\* ways, in both key orders, in objects and arrays, with explicit nulls among the array elements
+ErrA == Oa(Obj(<<KV(kc, N1)>>))      \* {"a":{"c":1}}: .a.b is a missing member at depth 2
+ErrDocs == { Obj(<<KV(kc, ErrA), KV(kd, Ob(N1))>>), Obj(<<KV(kc, Ob(N1)), KV(kd, ErrA)>>),
+             Obj(<<KV(kc, ErrA), KV(kd, Oa(N2))>>), Obj(<<KV(kc, Oa(N2)), KV(kd, ErrA)>>),
+             Arr(<<ErrA, Ob(N1)>>), Arr(<<Ob(N1), ErrA>>), Arr(<<ErrA, Oa(N2)>>), Arr(<<Oa(N2), ErrA>>),
+             Arr(<<Null, Null>>), Arr(<<Null, Oa(N1)>>), Arr(<<Oa(Null), Null, N1>>), Obj(<<KV(kc, Arr(<<Null, Null>>)), KV(kd, Null)>>) }
+Docs == IF DocSet = "errs" THEN ErrDocs ELSE IF DocSet = "rec" THEN RecDocs ELSE IF DocSet = "tiny" THEN Deep ELSE (IF Scope \in {"pairs", "extras"} THEN DocsPairs ELSE DocsTriples) \cup DocsSpell
 
 Pa == Cur(<<Nm(ka)>>)   Pb == Cur(<<Nm(kb)>>)
 Queries == {
@@ -88,6 +95,8 @@ QueriesX == {
   Cmp(">", Path("@", <<Flt(Cmp("!=", Cur(<<>>), Root(<<Nm(kb)>>)))>>, <<AF(Fn_gcnt)>>), Lit(Num(0))),
   And(Exist(Pa), Exist(Path("@", <<Nm(kb)>>, <<FF(Fn_fprobe)>>))),
   Cmp("<", Pa, Path("$", <<Nm(kb)>>, <<FF(Fn_fid)>>)),
+  \* functions chained directly on `@` (the member itself, scalar or not, flows through both)
+  Cmp("==", Path("@", <<>>, <<FF(Fn_fid), FF(Fn_fid)>>), Lit(N1)), Exist(Path("@", <<>>, <<FF(Fn_fid), AF(Fn_gcnt)>>)),
   \* a `$` operand inside a filter nested in an `@` operand (the root must stay the document)
   Exist(Cur(<<Flt(Cmp("==", Cur(<<>>), Root(<<Nm(kb)>>)))>>)), Exist(Cur(<<Nm(ka), Flt(Cmp("!=", Cur(<<>>), Root(<<Nm(ka), Un(<<Idx(0)>>)>>)))>>)) }
 QueriesT == { Exist(Pa), Cmp("==", Pa, Lit(N1)), Cmp("<", Pa, Lit(N2)), Exist(Cur(<<>>)),
@@ -107,7 +116,8 @@ SigmaTriples == {Nm(ka), Nm(kb), Wild, Multi(<<Nm(ka), Nm(kb)>>), Multi(<<Wild, 
 SigmaSpell == IF Spellings \in {"all", "all64"} THEN {Nm(kE), Multi(<<Nm(kE), Nm(ka)>>)} ELSE {}
 SigmaExtras == {Nm(ka), Nm(kb), Wild, Un(<<Idx(0)>>), Multi(<<Nm(ka), Nm(kb)>>), Un(<<Sl(0, TRUE, 0, TRUE, 1, TRUE)>>)} \cup {Flt(q) : q \in QueriesX}
 SigmaRec == {Nm(ka), Nm(kb), Wild, Multi(<<Nm(kc), Nm(kd)>>)}
-Sigma == (IF Scope = "recrec" THEN SigmaRec ELSE IF Scope = "pairs" THEN SigmaPairs ELSE IF Scope = "extras" THEN SigmaExtras ELSE SigmaTriples) \cup SigmaSpell
+SigmaErr == {Nm(ka), Nm(kb), Wild, Flt(Exist(Cur(<<>>))), Flt(Exist(Pa)), Un(<<Sl(0, FALSE, 2, FALSE, 1, TRUE)>>), Un(<<Idx(0)>>)}
+Sigma == (IF Scope = "errs" THEN SigmaErr ELSE IF Scope = "recrec" THEN SigmaRec ELSE IF Scope = "pairs" THEN SigmaPairs ELSE IF Scope = "extras" THEN SigmaExtras ELSE SigmaTriples) \cup SigmaSpell
 
 F1 == {FF(Fn_f1), FF(Fn_fodd), FF(Fn_ferr), AF(Fn_g1), AF(Fn_gerr)}
 F2 == {FF(Fn_f2), AF(Fn_g2), FF(Fn_f3)}
